@@ -46,6 +46,22 @@ def templates(rng, g):
     out.append(("equals-after-diff", f"ㄱ ㄴ {{X}} ㄴㅎㄹ"))
     out.append(("try-not-raised", f"{gi()} ({{X}} ㅎ) ㅅㄷㅎㄷ"))
     out.append(("fold-init-unused", f"(ㄴ ㅁㄹㅎㄴ) {{X}} (ㄴㅇㄱ ㅎ) ㅅㄹㅎㄹ".replace("(ㄴㅇㄱ ㅎ)", "(ㄱㅇㄱ ㅎ)")))
+    # arguments handed to a user function *by a built-in* (fold / filter / pipe / spread / collect) that the
+    # function never uses, and list elements those built-ins pass along without inspecting them
+    out.append(("foldl-acc-unused", f"(ㄴㅇㄱ ㅎ) ({{X}} {gi()} {gi()} ㅁㄹㅎㄹ) ㅅㄹㅎㄷ"))
+    out.append(("foldl-init-unused", f"(ㄴㅇㄱ ㅎ) {{X}} ({gi()} {gi()} ㅁㄹㅎㄷ) ㅅㄹㅎㄹ"))
+    out.append(("foldl-elem-unused", f"(ㄱㅇㄱ ㅎ) ({gi()} {{X}} {{X}} ㅁㄹㅎㄹ) ㅅㄹㅎㄷ"))
+    out.append(("foldl-acc-dropped-midway", f"(ㄱㅇㄱ ㄴㅇㄱ (ㄴㅇㄱ ㄷ ㅈㅎㄷ) ㅎㄷ ㅎ) ({{X}} ㄴ ㄹ ㅁ ㅁㄹㅎㅁ) ㅅㄹㅎㄷ"))
+    out.append(("foldr-acc-unused", f"({gi()} {gi()} {{X}} ㅁㄹㅎㄹ) (ㄱㅇㄱ ㅎ) ㅅㄹㅎㄷ"))
+    out.append(("foldr-init-unused", f"({gi()} {gi()} ㅁㄹㅎㄷ) {{X}} (ㄱㅇㄱ ㅎ) ㅅㄹㅎㄹ"))
+    out.append(("foldr-elem-unused", f"({{X}} {{X}} {gi()} ㅁㄹㅎㄹ) (ㄴㅇㄱ ㅎ) ㅅㄹㅎㄷ"))
+    out.append(("filter-elem-uninspected", f"(({{X}} {gi()} {{X}} ㅁㄹㅎㄹ) (ㅈㅈㅎㄱ ㅎ) ㅅㅂㅎㄷ) ㅈㄷㅎㄴ"))
+    out.append(("filter-kept-unused", f"ㄴ (({{X}} {gi()} ㅁㄹㅎㄷ) (ㅈㅈㅎㄱ ㅎ) ㅅㅂㅎㄷ) ㅎㄴ"))
+    out.append(("pipe-arg-unused", f"{{X}} ((ㄹ ㅎ) (ㄱㅇㄱ ㅎ) ㄴㄱㅎㄷ) ㅎㄴ"))
+    out.append(("spread-elem-unused", f"({{X}} {gi()} ㅁㄹㅎㄷ) ((ㄴㅇㄱ ㅎ) ㅁㅂㅎㄴ) ㅎㄴ"))
+    out.append(("collect-elem-unused", f"{{X}} {gi()} ((ㄱㅇㄱ ㅈㄷㅎㄴ ㅎ) ㅂㅂㅎㄴ) ㅎㄷ"))
+    out.append(("map-result-len", f"(({{X}} {{X}} ㅁㄹㅎㄷ) (ㄱㅇㄱ ㄴ ㄷㅎㄷ ㅎ) ㅁㄷㅎㄷ) ㅈㄷㅎㄴ"))
+    out.append(("list-in-list-len", f"(({{X}} ㅁㄹㅎㄴ) ({{X}} {{X}} ㅁㄹㅎㄷ) ㅁㄹㅎㄷ) ㅈㄷㅎㄴ"))
     out.append(("closure-captured-unused", f"{{X}} ((ㄹ ㅎ) ㅎ) ㅎㄴ ㅎㄱ"))
     return out
 
@@ -68,7 +84,7 @@ SPEC = {
     'lean': ['C03'],
     'cases': cases,
     'stream': 'C03 marked-position stream',
-    'rule': '21 templates with a marked non-strict position (unused argument, unselected Boolean branch, operands after the '
+    'rule': '35 templates with a marked non-strict position (unused argument, arguments and list elements passed on by fold / filter / pipe / spread / collect / map to functions that ignore them, unselected Boolean branch, operands after the '
             'deciding one of Boolean ㄱ / ㄷ, uninspected list elements / dictionary values, map over unused elements, ㄴ after '
             'the first difference, handler of a ㅅㄷ that does not raise, captured but unused argument) × random surrounding '
             'sub-expressions × 8 payloads (user exception, type error, non-terminating recursion bounded only by the '
